@@ -429,7 +429,7 @@ func (r *Reader) FindBlockForKey(key []byte) ([]BlockLocator, error) {
 	// First try binary search for efficiency - find the first block
 	// where the first key is >= our target key
 	indexIter := r.indexBlock.Iterator()
-	indexIter.Seek(key)
+	indexIter.SeekFloor(key) // the block containing key starts at or before it
 
 	// If the seek fails, start from beginning to check all blocks
 	if !indexIter.Valid() {
